@@ -21,7 +21,12 @@ func (p verifProvider) Receive(c *actor.Context) {
 		s.pid = c.PID()
 		s.members.Add(s.cluster.Member())
 		s.sendMembersToAgent()
-		s.eventSubPID = c.SpawnChildFunc(s.handleEventStream, "event")
+		s.eventSubPID = c.SpawnChildFunc(func(cc *actor.Context) {
+			s.handleEventStream(cc)
+			if h := VerifEventChildHandled; h != nil {
+				h(cc.Message())
+			}
+		}, "event")
 		s.cluster.engine.Subscribe(s.eventSubPID)
 	case actor.Stopped:
 		s.cluster.engine.Unsubscribe(s.eventSubPID)
@@ -30,6 +35,11 @@ func (p verifProvider) Receive(c *actor.Context) {
 		s.Receive(c)
 	}
 }
+
+// VerifEventChildHandled, if set, is called after the provider's event-stream child has handled a
+// message (so that a harness can wait for "the unreachable report went through the child" without
+// depending on what the child made of it).
+var VerifEventChildHandled func(msg any)
 
 // VerifStartProvider starts only the provider of c, reporting to the given agent PID.
 func VerifStartProvider(c *Cluster, agent *actor.PID, opts ...actor.OptFunc) *actor.PID {
